@@ -134,16 +134,20 @@ HANDWRAPPED = {'Avtp_CanBrief_Finalize', 'Avtp_CanBrief_SetPayload', 'Avtp_Can_C
                'Avtp_Vss_SetVssPath'}
 
 
-def build_world(wdir, gdir, cc='gcc', cflags=('-O2', '-g'), world_srcs=(), defines=()):
+def build_world(wdir, gdir, cc='gcc', cflags=('-O2', '-g'), world_srcs=(), defines=(), cxx_callers=False):
     """compile the library of the current working tree plus the thunks with one
-    compiler/flag set; returns the list of object files"""
+    compiler/flag set; returns the list of object files. cxx_callers: the generated per-format thunks are compiled as
+    C++ (the library stays C), so that whatever the public headers define inline is the C++ rendering of it"""
     os.makedirs(wdir, exist_ok=True)
     base = [cc, '-std=gnu99', *lib_flags(), '-I' + os.path.join(ROOT, 'world')] + list(cflags) + list(defines)
     cmds, objs = [], []
     gen_wraps = sorted(glob.glob(os.path.join(gdir, 'wrap_*.c')))
     for s in repo_sources() + gen_wraps + [os.path.join(ROOT, 'world', w) for w in world_srcs]:
         o = os.path.join(wdir, objname(s))
-        cmds.append(base + ['-c', s, '-o', o])
+        if cxx_callers and s in gen_wraps and re.match(r'wrap_[A-Z]\w*\.c$', os.path.basename(s)):
+            cmds.append(['g++' if cc == 'gcc' else 'clang++', '-x', 'c++', '-std=gnu++11', '-w', '-fpermissive'] + base[2:] + ['-c', s, '-o', o])
+        else:
+            cmds.append(base + ['-c', s, '-o', o])
         objs.append(o)
     par(cmds, 'world build (%s %s)' % (cc, ' '.join(cflags)))
     return objs
@@ -228,6 +232,15 @@ def run_slices(exe, args, nslices=NCPU, timeout=None, env=None, result=None, tag
             res.parse(out, tag)
             continue
         ok = res.parse(out, tag)
+        if p.returncode is not None and p.returncode < 0 and -p.returncode in (4, 6, 7, 8, 11):
+            # The explorer itself was killed by a fault outside a guarded call. The explorer is deterministic and runs clean on
+            # the pinned tree, so this is the code under test corrupting memory it was not given (a write that runs over
+            # the checker's stack, say) and being noticed only later. Reported as a violation of the suite's property.
+            suite = args[args.index('--suite') + 1] if '--suite' in args else '?'
+            key = 'explorer killed by signal %d: memory outside the passed objects was corrupted' % -p.returncode
+            e = res.viol.setdefault((suite, key), {'count': 0, 'case': '%s:99:0:0:0:0:0:0' % suite, 'detail': '%s, slice %d/%d of %s%s; last output: %s' % (os.path.basename(exe), i, nslices, ' '.join(args), (' [' + tag + ']') if tag else '', (out.strip().splitlines() or ['-'])[-1][:200]), 'tag': tag})
+            e['count'] += 1
+            continue
         if p.returncode != 0 or not ok:
             die_infra('explorer slice %d of %s exited %s without finishing\n%s' % (i, ' '.join(args), p.returncode, err[-2000:]))
     return res
